@@ -3,6 +3,8 @@ Require Import SF.Prelude SF.PySlice SF.Dtype SF.PyDyn SF.Blocks SF.UpdateSpec S
 Require Import Gen.Gen_util Proofs.SliceFacts Proofs.AscSlice.
 Require Import Proofs.UpdateLists Proofs.BlocksUpdateKey Proofs.BlocksDrop Proofs.BlocksMask.
 Require Import Proofs.BlocksAstype Proofs.BlocksAssign Proofs.BlocksInsert.
+(* non-trivial instances of the implications below (hypotheses satisfiable): Proofs/C08Examples.v *)
+Require Proofs.C08Examples.
 
 (* The regenerated util.slice_to_ascending_slice (used by drop/mask/assign to walk blocks in
    ascending order) denotes exactly the key's positions, ascending -- for EVERY key
@@ -59,11 +61,11 @@ Print Assumptions C08_set_exact.
 
 (* ASTYPE on a column selection, every block layout: exactly the addressed columns are converted; every other
    column keeps dtype and cells (conv_same: converting to the dtype a column already has is the identity). *)
-Theorem C08_astype_any_layout : forall (A : Type) (dt : dtype) (conv : dtype -> list A -> list A),
+Theorem C08_astype_any_layout : forall (A : Type) (dt : dtype) (conv : dtype -> list A -> list A) (int_key : bool),
   (forall c, conv dt c = c) ->
   forall (t : tb A) (k : ckey), wf_tb t -> t <> [] -> walk_dom k = true ->
   forall ps, key_positions k (Z.of_nat (length (flatten t))) = Ok ps ->
-  res_map flatten (M_astype_blocks dt conv t k) = S_astype_columns (flatten t) k dt conv.
+  res_map flatten (M_astype_blocks dt conv int_key t k) = S_astype_columns (flatten t) k dt conv.
 Proof. exact @astype_blocks_refines. Qed.
 Print Assumptions C08_astype_any_layout.
 
